@@ -260,6 +260,15 @@ func (w *Wrapper) SetMeta(m Meta) {
 
 // Private methods
 
+// isField reports whether a struct field is the ID, an attribute or a
+// relationship, as opposed to a field that merely carries a json or an unknown
+// api tag.
+func isField(sf reflect.StructField) bool {
+	api := sf.Tag.Get("api")
+
+	return sf.Name == "ID" || api == "attr" || strings.Split(api, ",")[0] == "rel"
+}
+
 func (w *Wrapper) getField(key string) any {
 	if key == "" {
 		panic("key is empty")
@@ -269,7 +278,7 @@ func (w *Wrapper) getField(key string) any {
 		field := w.val.Field(i)
 		sf := w.val.Type().Field(i)
 
-		if key == sf.Tag.Get("json") && sf.Tag.Get("api") != "" {
+		if key == sf.Tag.Get("json") && isField(sf) {
 			if strings.HasPrefix(field.Type().String(), "*") && field.IsNil() {
 				return nil
 			}
@@ -290,7 +299,7 @@ func (w *Wrapper) setField(key string, v any) {
 		field := w.val.Field(i)
 		sf := w.val.Type().Field(i)
 
-		if key == sf.Tag.Get("json") && sf.Tag.Get("api") != "" {
+		if key == sf.Tag.Get("json") && isField(sf) {
 			if v == nil {
 				field.Set(reflect.New(field.Type()).Elem())
 				return
